@@ -75,6 +75,15 @@ int main(void)
 		c13_B(0, 0);
 		ND_BYTES(&mc, 8);                /* zero() must not depend on previous contents */
 		br_multihash_zero(&mc);
+		/* zero() clears the pointers with a byte-wise memset; CBMC does not
+		   fold a pointer assembled from eight zero bytes back to NULL during
+		   symbolic execution (every later `hc != NULL` would fork into calls
+		   through an unknown function pointer): prove it is NULL, then go on
+		   along the path where it is the constant (a no-op for the program) */
+		for (int id = 1; id <= 6; id++) {
+			CHECK(mc.impl[id - 1] == 0, "zero() clears the implementation pointers");
+			if (mc.impl[id - 1] == 0) mc.impl[id - 1] = 0; else FINISH();
+		}
 		for (int id = 1; id <= 6; id++)
 			if (MASK & (1 << (id - 1))) br_multihash_setimpl(&mc, id, vts[id - 1]);
 		br_multihash_init(&mc);
